@@ -6,6 +6,7 @@ import CorsVerif.Proofs.Accepted
 import CorsVerif.Proofs.Accept
 import CorsVerif.Proofs.LexOrigins
 import CorsVerif.Proofs.NetFacts
+import CorsVerif.Proofs.BinarySearch
 /-
   C01 — Allowed origins are exactly the union of what the configured patterns denote.
 
@@ -706,6 +707,46 @@ example : [ex1, ex2, ex3].any (fun p => Spec.denotes p
 example : [ex1, ex2, ex3].any (fun p => Spec.denotes p
     { scheme := Spec.b "https", host := { value := Spec.b "xfoo.com", assumeIP := false }, port := 0 }) = false := by decide
 
+/-! ### `slices.BinarySearch` on the slices of the tree
+
+The Go code finds edges, schemes and port codes with `slices.BinarySearch`; the model scans ordered lists.  The two agree
+because the slices are sorted — an invariant that is proved (`C01_invariant`), not assumed.  `Ix.binarySearch` is the
+library's loop itself (Proofs/BinarySearch.lean); at every node of every tree the configuration code can build, it returns
+what the model's searches return. -/
+
+/-- **C01 (binary search).** For every list of well-formed patterns, at every node `m` of the tree built from it:
+`slices.BinarySearch(n.edges, label)` and `slices.BinarySearch(n.schemes, scheme)` — the library's halving loop — return
+the lower bound and the found flag the model computes by scanning (`Ix.bsearch`), the position the look-ups of
+`Tree.Contains` / `node.contains` use (`Ix.findPos`) is that position, and on every port list of the node
+`slices.BinarySearch(ports, port)` reports exactly membership. -/
+theorem C01_binarySearch (ps : List Pattern) (hwf : ∀ p ∈ ps, p.WF) (m : Node)
+    (hm : Ix.Sub (ps.foldl Tree.insert Node.empty) m) (label : Nat) (scheme : Bytes) (port : Int) :
+    (Ix.binarySearch Ix.natLt label (m.kids.map Prod.fst) = Ix.bsearch Ix.natLt label (m.kids.map Prod.fst) ∧
+      Ix.findPos label (m.kids.map Prod.fst) =
+        cond (Ix.bsearch Ix.natLt label (m.kids.map Prod.fst)).2 (some (Ix.bsearch Ix.natLt label (m.kids.map Prod.fst)).1) none) ∧
+    (Ix.binarySearch Bytes.lt scheme (m.schemes.map Prod.fst) = Ix.bsearch Bytes.lt scheme (m.schemes.map Prod.fst) ∧
+      Ix.findPos scheme (m.schemes.map Prod.fst) =
+        cond (Ix.bsearch Bytes.lt scheme (m.schemes.map Prod.fst)).2 (some (Ix.bsearch Bytes.lt scheme (m.schemes.map Prod.fst)).1) none) ∧
+    (∀ i, i < m.schemes.length →
+      Ix.binarySearch Ix.intLt port ((m.schemes.map Prod.snd).getD i default) = Ix.bsearch Ix.intLt port ((m.schemes.map Prod.snd).getD i default) ∧
+      (Ix.bsearch Ix.intLt port ((m.schemes.map Prod.snd).getD i default)).2 = ((m.schemes.map Prod.snd).getD i default).contains port) := by
+  have hinv : Node.Inv m := Ix.Inv_sub (C01_invariant ps hwf) hm
+  refine ⟨Ix.binarySearch_edges m hinv label, Ix.binarySearch_schemes m hinv scheme, ?_⟩
+  intro i hi
+  cases m with
+  | mk suf S K => exact Ix.binarySearch_ports _ (Ix.SchemesOK_ports_mem (Node.Inv_mk.mp hinv).1 i hi) port
+
+/-- Whatever a slice holds (sorted or not), `slices.BinarySearch` returns a position in `[0, len]` and `found` only inside
+the slice: the index expressions that use its result cannot go out of range. -/
+theorem C01_binarySearch_range {α : Type} [BEq α] [Inhabited α] (lt : α → α → Bool) (x : α) (l : List α) :
+    (Ix.binarySearch lt x l).1 ≤ l.length ∧ ((Ix.binarySearch lt x l).2 = true → (Ix.binarySearch lt x l).1 < l.length) :=
+  Ix.binarySearch_range lt x l
+
+example : Ix.binarySearch Ix.natLt 5 [1, 3, 5, 7, 9] = (2, true) := by decide
+example : Ix.binarySearch Ix.natLt 6 [1, 3, 5, 7, 9] = (3, false) := by decide
+/-- on an unsorted slice the loop and the scan differ: sortedness is what the theorem needs -/
+example : Ix.binarySearch Ix.natLt 2 [3, 1, 2] ≠ Ix.bsearch Ix.natLt 2 [3, 1, 2] := by decide
+
 #print axioms C01_tree
 #print axioms C01_order
 #print axioms C01_invariant
@@ -719,5 +760,7 @@ example : [ex1, ex2, ex3].any (fun p => Spec.denotes p
 #print axioms C01_browser_parse_ipv6
 #print axioms C01_browser_ip
 #print axioms C01_config_std
+#print axioms C01_binarySearch
+#print axioms C01_binarySearch_range
 
 end Cors
